@@ -150,19 +150,64 @@ structure MsgOut where
   allocs : List Nat
 deriving DecidableEq, Repr
 
+/-! ### the 32-bit arithmetic of the length prefix
+
+`msgSize := int(binary.BigEndian.Uint32(data))`: the four bytes are combined in `uint32`
+arithmetic (shifts and ors, as `encoding/binary` does) and the result is converted to `int`.
+`int` has 64 bits on every platform the runner is built for, so the conversion is a zero
+extension: whatever the peer sends, the size is one of 0 … 2^32-1, never negative
+(`Lemmas/Delimited.lean: msgSize_eq_be32`, `Props/C09.lean: prefix_size_total`).  A narrower
+conversion (through `int32`, or an `int` of 32 bits) would make every prefix whose first byte
+is ≥ 0x80 a negative size, which passes the `msgSize > maxSize` test and reaches
+`make([]byte, msgSize)`: a run-time panic in the reading goroutine. -/
+
+/-- `binary.BigEndian.Uint32(b)`:
+`uint32(b[3]) | uint32(b[2])<<8 | uint32(b[1])<<16 | uint32(b[0])<<24` -/
+def beU32 (b0 b1 b2 b3 : UInt8) : UInt32 :=
+  b3.toUInt32 ||| (b2.toUInt32 <<< 8) ||| (b1.toUInt32 <<< 16) ||| (b0.toUInt32 <<< 24)
+
+/-- `int(x)` for `x : uint32` with a 64-bit `int`: zero extension -/
+def intOfU32 (x : UInt32) : Int := Int.ofNat x.toNat
+
+/-- `int(binary.BigEndian.Uint32(data))` for the bytes `read(4)` returned (always four; the
+second clause is not reached) -/
+def msgSize : Bytes → Int
+  | [b0, b1, b2, b3] => intOfU32 (beU32 b0 b1 b2 b3)
+  | p => Int.ofNat (be32 p)
+
 /-- `readDelimitedMessageRaw` with the goroutine/`select` collapsed: either the read
-finishes (whatever the time-out) or it stalls and the time-out fires. -/
+finishes (whatever the time-out) or it stalls and the time-out fires.  The size is an `int`
+(`msgSize`), compared with the limit as an `int`; `read(msgSize)` then allocates
+`make([]byte, msgSize)` — `Int.toNat` stands for that step, which is only sound because the
+size is never negative (see above). -/
 def readMessage (max : Nat) (r : Reader) : MsgOut :=
   match readN 4 r with
   | .err e _ r' => ⟨Res.ofErr e, r', [4]⟩
   | .stall offs r' => ⟨.timeout false offs 4, r', [4]⟩
   | .ok p r' =>
-    let sz := be32 p
-    if sz > max then ⟨.tooLarge sz, r', [4]⟩ else
-    match readN sz r' with
-    | .ok b r'' => ⟨.msg b, r'', [4, sz]⟩
-    | .err e _ r'' => ⟨(match e with | .eof => .unexpectedEOF | e => Res.ofErr e), r'', [4, sz]⟩
-    | .stall offs r'' => ⟨.timeout true offs sz, r'', [4, sz]⟩
+    let sz := msgSize p
+    if sz > Int.ofNat max then ⟨.tooLarge sz.toNat, r', [4]⟩ else
+    match readN sz.toNat r' with
+    | .ok b r'' => ⟨.msg b, r'', [4, sz.toNat]⟩
+    | .err e _ r'' => ⟨(match e with | .eof => .unexpectedEOF | e => Res.ofErr e), r'', [4, sz.toNat]⟩
+    | .stall offs r'' => ⟨.timeout true offs sz.toNat, r'', [4, sz.toNat]⟩
+
+/-- The places where the runners call `ReadDelimitedMessage` on a peer's stdout:
+`runTestCasesForServer` (the server's one `ServerCompatResponse`) and
+`clientProcessRunner.consumeOutput` (the client's `ClientCompatResponse`s). -/
+inductive Site
+  | server
+  | client
+deriving DecidableEq, Repr
+
+/-- the documented limit of each site: `maxServerResponseSize` = 1 MB, `maxClientResponseSize`
+= 16 MB -/
+def Site.limit : Site → Nat
+  | .server => 1048576
+  | .client => 16777216
+
+/-- one `ReadDelimitedMessage` at a call site (up to `Unmarshal`) -/
+def readAt (s : Site) (r : Reader) : MsgOut := readMessage s.limit r
 
 /-- `protoDecoder.DecodeNext` up to (not including) `Unmarshal`; no size limit, no time-out
 (a stalled peer stalls the decoder: outcome `timeout` stands for "never returns"). -/
